@@ -408,6 +408,41 @@ func UnionClassName(gt *dsl.GeneralizedType) (className string, typeParameters s
 	return strings.Join(cases, "Or"), GetOpenGenericTypeParameters(gt)
 }
 
+// UnionOfNamedType returns the union the named type nt stands for, or nil: nt's own type once single-case
+// wrappers without dimensionality are removed (`Al: [int, float]*`, a named vector / map / array of a union, also
+// counts: its union class has always been called `Al`). Only that union is called by the alias name; a union
+// nested deeper inside the named type (a case, an item, a key, a type argument) has its own synthesized class
+// (UnionClassName). Every place that turns a union into a Python class name decides with this one rule.
+func UnionOfNamedType(nt *dsl.NamedType) *dsl.GeneralizedType {
+	if nt == nil {
+		return nil
+	}
+	t := nt.Type
+	for {
+		own, ok := t.(*dsl.GeneralizedType)
+		if !ok {
+			return nil
+		}
+		if own.Cases.IsUnion() {
+			return own
+		}
+		if own.Dimensionality != nil || !own.Cases.IsSingle() {
+			return nil
+		}
+		t = own.Cases[0].Type
+	}
+}
+
+// IsUnionOfNamedType: is gt the union that nt stands for (see UnionOfNamedType)?
+// gt may be the scalar view of the named type's own node (GeneralizedType.ToScalar makes a new node around the same cases).
+func IsUnionOfNamedType(nt *dsl.NamedType, gt *dsl.GeneralizedType) bool {
+	own := UnionOfNamedType(nt)
+	if own == nil || gt == nil || !gt.Cases.IsUnion() {
+		return false
+	}
+	return own == gt || (len(own.Cases) == len(gt.Cases) && own.Cases[0] == gt.Cases[0])
+}
+
 func UnionSyntax(gt *dsl.GeneralizedType) string {
 	className, typeParameters := UnionClassName(gt)
 	var syntax string
